@@ -40,7 +40,7 @@ def _cfg(tier):
     avoid = open_features()
     return Cfg(nvars=(1, 1), pool=(1, 6), dom=(0, 6), profile="falsy" if "falsy_values" not in avoid else "clean",
                max_depth=3, allow_nested_not="not_under_not" not in avoid,
-               allow_empty_cond=True, select="first", desc=("entity",), avoid=frozenset(avoid))
+               allow_empty_cond=True, select="first", desc=("entity",), avoid=frozenset(avoid), empty_dom=(1, 5))
 
 
 def strategy(tier):
